@@ -188,7 +188,7 @@ def replay(ctx, doc):
         rows = P.Truth(d["dt"], d["t0"], d["sy"], d["Z"], d["rain"], d["level"], d["et"], d["events"], d["s"], d["j"]).rows()
     else:
         r = inp["record"]
-        rows = gen.Record(r["dt"], r["t0"], r["rain"], r["level"], set(r["removed"]), r["pre"], r["post"]).rows()
+        rows = gen.Record(r["dt"], r["t0"], r["rain"], r["level"], set(r["removed"]), r["pre"], r["post"], phase=r.get("phase", 0)).rows()
     w = P.run_workflow(ctx, rows, inp["s"], inp["j"], inp["zeta_step"])
     o = oracle_c13(w["tables"])
     print("oracle:", o)
